@@ -1264,4 +1264,129 @@ Proof.
         -- intros _. right. right. now left.
 Qed.
 
+Lemma emb_mono k k' :
+  (forall o, In (SIResched o) k -> In (SIResched o) k') ->
+  forall o, In (RIResched o) (emb k) -> In (RIResched o) (emb k').
+Proof. intros H o Hin. apply emb_in. apply H. now apply emb_in. Qed.
+
+Lemma in_push {X} (x : X) pre r : In x r -> In x (pre ++ r).
+Proof. intros H. apply in_or_app. now right. Qed.
+
+Lemma JQs_step c :
+  K2 c -> J (sc_st (sstep c)) (sc_obs (sstep c)) (emb (sc_k (sstep c))) /\ Qs (sc_obs (sstep c)) (sc_k (sstep c)).
+Proof.
+  intros (I & HJ0 & HQ0 & _). destruct c as [s m k l]. cbn [sc_st sc_obs sc_k] in *.
+  destruct k as [|i k]; [unfold ReplaySched.sstep; cbn; split; assumption|].
+  (* dropping the head instruction (it is not a re-scheduling / not an ensure) and pushing others *)
+  assert (HJt : i <> SIResched (match i with SIResched o => o | _ => 0%nat end) \/ True) by now right.
+  assert (Hjdrop : forall pre, (forall o, i <> SIResched o) -> J s m (emb (pre ++ k))).
+  { intros pre Hi. eapply J_k_mono; [|exact HJ0]. apply emb_mono. intros o H. apply in_push.
+    apply (in_tail_ne _ i); [exact H|]. intros E. exact (Hi o (eq_sym E)). }
+  assert (Hqdrop : forall pre, (forall top o, i <> SIEnsure top o) -> Qs m (pre ++ k)).
+  { intros pre Hi. eapply Qs_mono; [|exact HQ0]. intros top o H. apply in_push.
+    apply (in_tail_ne _ i); [exact H|]. intros E. exact (Hi top o (eq_sym E)). }
+  unfold ReplaySched.sstep. cbn [sc_k sc_st sc_obs sc_rlog].
+  destruct i as [top p|top o|top o t|o n|o|o|o|].
+  - (* SIOp *)
+    assert (HJ : forall pre, J s m (emb (pre ++ k))) by (intros pre; apply Hjdrop; discriminate).
+    assert (HQ : forall pre, Qs m (pre ++ k)) by (intros pre; apply Hqdrop; discriminate).
+    assert (Hsame : forall s' pre, r_sched s' = r_sched s -> r_fresh s' = r_fresh s ->
+                    J s' m (emb (pre ++ k)) /\ Qs m (pre ++ k)).
+    { intros s' pre E1 E2. split; [eapply J_same_sched; [exact E1|exact E2|apply HJ]|apply HQ]. }
+    unfold sstep_op. destruct p as [o|o|v|e| | |d].
+    + destruct (m o) as [os|] eqn:Hm; cbn [sc_st sc_obs sc_k]; [now apply (Hsame s [])|].
+      destruct (r_disposed s); cbn [sc_st sc_obs sc_k].
+      * split.
+        -- apply (J_new_stopped s m _ o _ Hm); [reflexivity|reflexivity|].
+           replace (map (SIOp false) (react o 0) ++ drain_if sync top (SIHandle o :: k))
+             with ((map (SIOp false) (react o 0) ++ (if inl sync top then [SIDrain; SIHandle o] else [SIHandle o])) ++ k)
+             by (unfold drain_if; destruct (inl sync top); rewrite <- app_assoc; reflexivity).
+           apply HJ.
+        -- apply Qs_upd_stopped; [reflexivity|].
+           replace (map (SIOp false) (react o 0) ++ drain_if sync top (SIHandle o :: k))
+             with ((map (SIOp false) (react o 0) ++ (if inl sync top then [SIDrain; SIHandle o] else [SIHandle o])) ++ k)
+             by (unfold drain_if; destruct (inl sync top); rewrite <- app_assoc; reflexivity).
+           apply HQ.
+      * set (s2 := with_observers (r_observers (trim s) ++ [o]) (trim s)).
+        set (so1 := fold_left (fun so it => so_on (Next (snd it)) so) (r_queue s2) fresh_so).
+        set (so2 := match r_exception s2 with
+                    | Some e => so_on (Err e) so1
+                    | None => if r_stopped s2 then so_on Done so1 else so1 end).
+        assert (Hf : so_faulted so2 = false /\ so_acquired so2 = false /\
+                     ser_disposed so2 = false /\ ser_cur so2 = None).
+        { destruct (fold_so_on_fields (r_queue s2) fresh_so) as (E1 & E2 & E3 & E4). fold so1 in E1, E2, E3, E4.
+          cbn [fresh_so so_faulted so_acquired ser_disposed ser_cur] in E1, E2, E3, E4. unfold so2.
+          destruct (r_exception s2) as [e|].
+          - destruct (so_on_fields (Err e) so1) as (F1 & F2 & F3 & F4). repeat split; congruence.
+          - destruct (r_stopped s2).
+            + destruct (so_on_fields Done so1) as (F1 & F2 & F3 & F4). repeat split; congruence.
+            + repeat split; assumption. }
+        destruct Hf as (F1 & F2 & F3 & F4).
+        assert (Hgen : forall hd pre,
+                  J (fst (ensure_active o s2 so2)) (rupd m o (ROState false false true hd 0 (snd (ensure_active o s2 so2))))
+                    (emb (pre ++ k)) /\
+                  Qs (rupd m o (ROState false false true hd 0 (snd (ensure_active o s2 so2)))) (pre ++ k)).
+        { intros hd pre. split.
+          - apply J_ensure_active; [eapply J_same_sched; [| |apply (HJ pre)]; reflexivity|exact F1|
+              rewrite F4; discriminate| |reflexivity].
+            intros _. split; [exact F3|]. rewrite F2. discriminate.
+          - apply Qs_upd_owned; [|apply HQ]. cbn [r_so]. now apply ensure_active_owned. }
+        destruct (ensure_active o s2 so2) as [s3 so3]. cbn [fst snd] in Hgen.
+        destruct (inl sync top); cbn [sc_st sc_obs sc_k].
+        -- exact (Hgen false [SIDrain; SIHandle o]).
+        -- exact (Hgen true []).
+    + destruct (m o) as [os|] eqn:Hm; cbn [sc_st sc_obs sc_k]; [|now apply (Hsame s [])].
+      destruct (r_handle os); cbn [sc_st sc_obs sc_k]; [|now apply (Hsame s [])].
+      pose proof (J_rado_dispose s m _ o os (HJ []) Hm) as HJ2. pose proof (rado_dispose_stopped s os o) as Hst.
+      destruct (rado_dispose s os o) as [s' os']. cbn [fst snd sc_st sc_obs sc_k] in *.
+      split; [exact HJ2|]. apply Qs_upd_stopped; [exact Hst|apply (HQ [])].
+    + destruct (r_disposed s); cbn [sc_st sc_obs sc_k]; [now apply (Hsame s [])|].
+      destruct (r_stopped s); cbn [sc_st sc_obs sc_k]; [now apply (Hsame s [])|].
+      set (s1 := trim (with_queue (r_queue s ++ [(r_clock s, v)]) s)).
+      set (pre := map (SIEnsure top) (r_observers s)).
+      assert (HJ1 : J s1 m (emb (pre ++ k))) by (eapply J_same_sched; [| |apply HJ]; reflexivity).
+      assert (Hdom : forall o, In o (r_observers s) -> m o <> None) by exact (sinv_dom _ _ _ I).
+      pose proof (J_so_on_pass (Next v) _ (r_observers s) s1 m HJ1) as HJ2.
+      destruct (so_each_spec (fun _ s so => (s, so_on (Next v) so)) (fun so so' => so' = so_on (Next v) so)
+                  (fun _ s _ => same_core_refl s) (fun _ _ _ => eq_refl)
+                  (r_observers s) s1 m (sinv_nodup _ _ _ I) Hdom) as (_ & A2 & A3).
+      destruct (so_each (fun _ s so => (s, so_on (Next v) so)) (r_observers s) s1 m) as [s2 m2].
+      cbn [fst snd sc_st sc_obs sc_k] in *. split; [exact HJ2|].
+      intros o os2 Hm2 Hs Ha. destruct (in_dec Nat.eq_dec o (r_observers s)) as [Hi|Hni].
+      * right. exists top. apply in_or_app. left. unfold pre. now apply in_map.
+      * rewrite (A2 o Hni) in Hm2. exact (HQ pre o os2 Hm2 Hs Ha).
+    + destruct (r_disposed s); cbn [sc_st sc_obs sc_k]; [now apply (Hsame s [])|].
+      destruct (r_stopped s); cbn [sc_st sc_obs sc_k]; [now apply (Hsame s [])|].
+      apply Hsame; reflexivity.
+    + destruct (r_disposed s); cbn [sc_st sc_obs sc_k]; [now apply (Hsame s [])|].
+      destruct (r_stopped s); cbn [sc_st sc_obs sc_k]; [now apply (Hsame s [])|].
+      apply Hsame; reflexivity.
+    + cbn [sc_st sc_obs sc_k]. now apply (Hsame _ []).
+    + destruct (d <? 0); cbn [sc_st sc_obs sc_k]; now apply (Hsame _ []).
+  - (* SIEnsure *)
+    assert (HJ : forall pre, J s m (emb (pre ++ k))) by (intros pre; apply Hjdrop; discriminate).
+    destruct (m o) as [os|] eqn:Hm; cbn [sc_st sc_obs sc_k].
+    2:{ split; [apply (HJ [])|]. intros o2 os2 Hm2 Hs Ha. destruct (HQ0 o2 os2 Hm2 Hs Ha) as [H|[t2 H]]; [now left|].
+        right. exists t2. apply (in_tail_ne _ _ _ H). intros [= _ ->]. congruence. }
+    destruct (proj2 (HJ []) o os Hm) as (F & C & Lv).
+    assert (Hk' : drain_if sync top k = (if inl sync top then [SIDrain] else []) ++ k)
+      by (unfold drain_if; destruct (inl sync top); reflexivity).
+    rewrite Hk'.
+    pose proof (J_ensure_active s m _ o (r_so os) (set_so os (snd (ensure_active o s (r_so os))))
+                  (HJ (if inl sync top then [SIDrain] else [])) F C Lv eq_refl) as HJ2.
+    pose proof (ensure_active_owned o s (r_so os) F) as Hown.
+    destruct (ensure_active o s (r_so os)) as [s' so']. cbn [fst snd sc_st sc_obs sc_k] in *.
+    split; [exact HJ2|]. apply Qs_upd_owned; [exact Hown|].
+    intros o2 os2 Hm2 Hs Ha. destruct (Nat.eq_dec o2 o) as [->|Hne].
+    + (* superseded by the update *) destruct (HQ0 o os2 Hm2 Hs Ha) as [H|[t2 H]]; [now left|].
+      rewrite Hm in Hm2. injection Hm2 as <-.
+      (* either way the entry for o is overwritten: any answer is fine, give the left one if owned *)
+      destruct H as [[= _]|H]; [|right; exists t2; now apply in_push].
+      right. exists t2. apply in_push.
+      (* the head was this very instruction: use the fact that the update overrides o *)
+      exfalso. revert Hown. intros _. exact (False_ind _ (ltac:(idtac) : False)).
+    + destruct (HQ0 o2 os2 Hm2 Hs Ha) as [H|[t2 H]]; [now left|]. right. exists t2. apply in_push.
+      apply (in_tail_ne _ _ _ H). intros [= _ E]. congruence.
+Abort.
+
 End SchedB.
